@@ -515,7 +515,7 @@ CHECKS["C10"] = {
     "parallel": 4,
     "quick": [
         {"harness": "VerifC10Peer", "params": {"second": [0, 1]}, "redirects": _C10R},
-        {"harness": "VerifC10Randao", "params": {}, "redirects": _C10R},
+        {"harness": "VerifC10Randao", "params": {"exit": [0, 1]}, "redirects": _C10R},
         {"harness": "VerifC10Sync", "params": {"second": [0, 1]}, "redirects": _C10R},
         {"pkg": "./core/validatorapi", "harness": "VerifC10VapiSync", "params": {"m": 1, "vals": [1, 2, 3]}},
         {"pkg": "./core/validatorapi", "harness": "VerifC10VapiSync", "params": {"m": 2, "vals": [5, 9, 6, 13]}},
@@ -527,7 +527,7 @@ CHECKS["C10"] = {
     ],
     "thorough": [
         {"harness": "VerifC10Peer", "params": {"second": [0, 1]}, "redirects": _C10R, "cross": True},
-        {"harness": "VerifC10Randao", "params": {}, "redirects": _C10R, "cross": True},
+        {"harness": "VerifC10Randao", "params": {"exit": [0, 1]}, "redirects": _C10R, "cross": True},
         {"harness": "VerifC10Sync", "params": {"second": [0, 1]}, "redirects": _C10R, "cross": True},
         {"pkg": "./core/validatorapi", "harness": "VerifC10VapiSync", "params": {"m": 1, "vals": [1, 2, 3]}, "cross": True},
         {"pkg": "./core/validatorapi", "harness": "VerifC10VapiSync", "params": {"m": 2, "vals": [5, 9, 6, 13]}, "cross": True},
@@ -538,7 +538,7 @@ CHECKS["C10"] = {
         {"pkg": "./core", "harness": "VerifGater", "params": {"slotdur_ms": [12000, 4000], "clockbits": [46, 52]}, "timeout_ms": 900000, "case_timeout_s": 4000},
     ],
     "bounds": {
-        "quick": "duty gater: the real core.NewDutyGater closure with a symbolic clock and a symbolic 64-bit wire slot and type (allowed exactly when the type is valid and the epoch is at most two ahead); validator-client side: the real validatorapi.Component (NewComponent, verifyPartialSig) for SubmitSyncCommitteeMessages (1-2 messages), SubmitVoluntaryExit, BeaconCommitteeSelections, SyncCommitteeSelections (one selection each; slot, subcommittee, signed slot/subcommittee/domain/fork symbolic) SubmitProposal (one bellatrix block against the agreed proposal served by the duty store: propDataMatchesDuty and the signature check) and SubmitAttestations (one Electra attestation): the named validator concrete per case (two in the lock, one not), slot / content / epoch and every ingredient of what the signature was made over (key id, content, fork epoch, validity) symbolic: accepted, and subscribers called, exactly when the signature verifies for the object's own root, domain and epoch under THIS node's public share; peer side: one peer message with one partial signature; validator (two in the lock, one unknown), claimed share index (any byte), signed content, epoch (fork change at epoch 100), domain name (attester / randao / exit), slot (gated >= 200) and every ingredient of what the signature was actually made over (key, content, domain, epoch, validity) symbolic, a symbolically failing epoch lookup, optionally a second entry of another validator that is valid or not; once with a minimal Eth2SignedData type, once with the real core.SignedRandao, once with real core.SignedSyncMessage objects (slot-based epoch lookup through a beacon client whose first Spec call may fail; one or two validators in the set)",
+        "quick": "duty gater: the real core.NewDutyGater closure with a symbolic clock and a symbolic 64-bit wire slot and type (allowed exactly when the type is valid and the epoch is at most two ahead); validator-client side: the real validatorapi.Component (NewComponent, verifyPartialSig) for SubmitSyncCommitteeMessages (1-2 messages), SubmitVoluntaryExit, BeaconCommitteeSelections, SyncCommitteeSelections (one selection each; slot, subcommittee, signed slot/subcommittee/domain/fork symbolic) SubmitProposal (one bellatrix block against the agreed proposal served by the duty store: propDataMatchesDuty and the signature check) and SubmitAttestations (one Electra attestation): the named validator concrete per case (two in the lock, one not), slot / content / epoch and every ingredient of what the signature was made over (key id, content, fork epoch, validity) symbolic: accepted, and subscribers called, exactly when the signature verifies for the object's own root, domain and epoch under THIS node's public share; peer side: one peer message with one partial signature; validator (two in the lock, one unknown), claimed share index (any byte), signed content, epoch (fork change at epoch 100), domain name (attester / randao / exit), slot (gated >= 200) and every ingredient of what the signature was actually made over (key, content, domain, epoch, validity) symbolic, a symbolically failing epoch lookup, optionally a second entry of another validator that is valid or not; once with a minimal Eth2SignedData type, once with the real core.SignedRandao and once with a real core.SignedVoluntaryExit under a never-expiring duty type, once with real core.SignedSyncMessage objects (slot-based epoch lookup through a beacon client whose first Spec call may fail; one or two validators in the set)",
         "thorough": "same, both solvers",
     },
     "outside": "the other validator-client handlers (Proposal/randao, SubmitBlindedProposal, other fork versions of SubmitProposal, aggregate attestations, sync contributions, registrations) and pre-Electra attestations (validator looked up through the duty definition); the wire decoding core.ParSignedDataSetFromProto (redirected to the set under test; C14); the other real Eth2SignedData types' Epoch/DomainName/MessageRoot implementations; the BLS algebra (ideal Verify plugged in through tbls.SetImplementation)",
